@@ -533,7 +533,8 @@ inductive EnvResult where
   | neverRun                                   -- (false, "target has never been run", nil, nil)
   | same                                       -- (true, "", nil, nil)
   | changed (reason : String) (d : VDiff)      -- (false, reason + " changed", d, nil)
-  | changedOpaque                              -- (false, "environment changed", nil, nil): too deep to compare or diff
+  | changedOpaque                              -- (false, "environment changed", nil, nil): the encodings differ but the
+                                               -- environments compare equal, or are too deep to compare or diff
   | error (e : String)                         -- a returned error
   | panic                                      -- a Go panic
 
@@ -547,9 +548,10 @@ def diffEnv (oldEnv : Option Val) (sameEncoding : Bool) (newEnv : Val) : EnvResu
   | none => .neverRun
   | some old =>
     if sameEncoding then .same else
+    -- the encodings differ, so the environment changed; the rest only finds a readable reason
     match equalDepth envDepth old newEnv with
-    | .error _ => .changedOpaque
-    | .ok true => .same
+    | .error _ => .changedOpaque                -- too deep to compare
+    | .ok true => .changedOpaque                -- == but distinguishable: 1 and 1.0, 0.0 and -0.0, sharing
     | .ok false =>
       match old, newEnv with
       | .dict _, .dict _ =>
